@@ -208,6 +208,10 @@ def check_sign(ctx, case, registry=None):
     ctx.klass('sign.keyform.' + case.get('keyform', 'Key'))
     if explicit:
         ctx.klass('sign.explicit_k')
+    if case.get('crafted_s'):
+        sr = int(case['crafted_s'], 16)
+        ctx.klass('sign.crafted_s.' + ('window_half_to_2^255' if ec.N // 2 < sr <= (1 << 255) else
+                                       'high' if sr > ec.N // 2 else 'low'))
     if case.get('ht', 1) != 1:
         ctx.klass('sign.hash_type_nondefault')
     if kc != 'uniform' or zc != 'random' or explicit or case.get('ht', 1) != 1:
@@ -450,6 +454,25 @@ def _craft(d, k, s):
     return z, r, s
 
 
+def crafted_sign_case(d, k, s_raw, keyform='Key', zform='bytes'):
+    """A producer case whose raw (pre-normalisation) s is chosen: the digest is solved from (d, k, s_raw). This is the
+    only way to put the s the signer computes on the low-S boundary (n//2, n//2 + 1, ..., 2^255), which random
+    digests reach with probability 2^-128."""
+    from ref import ec
+    d = d % ec.N or 1
+    k = k % ec.N or 1
+    z, r, _ = _craft(d, k, s_raw % ec.N or 1)
+    return {'kind': 'sign', 'd': _h(d), 'zs': [z.to_bytes(32, 'big').hex()], 'd2': None, 'k': '%x' % k, 'ht': 1,
+            'keyform': keyform, 'zform': zform, 'crafted_s': '%x' % (s_raw % ec.N or 1)}
+
+
+def _s_boundary():
+    from ref import ec
+    h = ec.N // 2
+    return [h - 1, h, h + 1, h + 2, h + (1 << 100), (1 << 255) - 1, 1 << 255, (1 << 255) + 1, h + (1 << 126),
+            ec.N - 1, ec.N - 2, 1, 2]
+
+
 def _der_int(v, pad=0, strip=False):
     b = v.to_bytes((v.bit_length() + 7) // 8 or 1, 'big')
     if b[0] & 0x80 and not strip:
@@ -653,6 +676,12 @@ def strategies(ctx):
         st.sampled_from(['key_pub', 'key_pub', 'key_priv', 'hdkey_pub', 'bytes', 'bytes', 'hex']),
         st.sampled_from(['bytes', 'hex']), st.sampled_from(['verify_fn', 'verify_fn', 'sig_method', 'sig_ctor_pk']),
         st.sampled_from([1, 1, 1, 0, 2, 3, 0x81, 0xff]))
+    h = n // 2
+    s_raw = st.one_of(st.sampled_from(_s_boundary()), st.integers(h + 1, 1 << 255), st.integers(h - 1000, h + 1000),
+                      st.integers((1 << 255) - 1000, (1 << 255) + 1000), st.integers(1, n - 1))
+    crafted = st.builds(crafted_sign_case, gen.secrets(), ks, s_raw, st.sampled_from(['Key', 'HDKey', 'hex', 'bytes']),
+                        st.sampled_from(['bytes', 'hex']))
+    sign = st.one_of(sign, sign, sign, crafted)
     reuse = st.fixed_dictionaries({
         'kind': st.just('reuse'),
         'd': gen.secrets().map(_h), 'd2': st.integers(1, 1000).map(_h),
@@ -730,6 +759,16 @@ def run(ctx):
                 'ht': ht, 'ht_explicit': True, 'keyform': 'Key', 'zform': 'bytes'}
         ctx.guard(lambda c: check_sign(ctx, c, registry), case)
     ctx.exhaustive('producer: every hash type byte 0..255')
+    # raw s of the signer placed on every low-S boundary value (digest solved from key, nonce and s)
+    idx = 0
+    for s_raw in _s_boundary():
+        for (d, k) in [(0x1234567, 12345), (n - 2, n - 3), (1, 1)]:
+            idx += 1
+            if idx % ctx.nshards != ctx.shard:
+                continue
+            case = crafted_sign_case(d, k, s_raw, ['Key', 'HDKey', 'hex', 'bytes'][idx % 4], ['bytes', 'hex'][idx % 2])
+            ctx.guard(lambda c: check_sign(ctx, c, registry), case)
+    ctx.exhaustive('producer: signer\'s raw s on 13 low-S boundary values x 3 (key, nonce) pairs')
 
     # 2. Hypothesis ----------------------------------------------------------------------------------------
     sign, verify, reuse = strategies(ctx)
